@@ -291,25 +291,6 @@ fn c16_hmac_sha1_wrapper() {
     assert!(got[..] == want[..]);
 }
 
-/// decode(encode(m)) for a Binding success response with XOR-MAPPED-ADDRESS (IPv4): class, method,
-/// transaction id and address come back. The framing octets encode emitted are asserted and then
-/// re-written as literals (constant propagation); address, port and transaction id are symbolic.
-/// (thorough tier: ~10 min, the encode side with a SocketAddr-carrying attribute list is slow)
-#[kani::proof]
-#[kani::unwind(40)]
-fn c16_decode_of_encode_xor_mapped_v4() {
-    let tx: [u8; 12] = kani::any();
-    let ip: [u8; 4] = kani::any();
-    let port: u16 = kani::any();
-    let addr = SocketAddr::V4(SocketAddrV4::new(Ipv4Addr::from(ip), port));
-    let msg = StunMessage::binding_success_response(tx, addr);
-    let out = encode_stun_message(&msg, None, false).unwrap();
-    assert!(out.len() == 32 && out[0..8] == [0x01, 0x01, 0x00, 0x0c, 0x21, 0x12, 0xA4, 0x42] && out[20..26] == [0x00, 0x20, 0x00, 0x08, 0x00, 0x01]);
-    let mut a = [0u8; 32];
-    a.copy_from_slice(&out);
-    a[0] = 0x01; a[1] = 0x01; a[2] = 0x00; a[3] = 0x0c; a[20] = 0x00; a[21] = 0x20; a[22] = 0x00; a[23] = 0x08; a[24] = 0x00; a[25] = 0x01;
-    let d = decode_stun_message(&a).unwrap();
-    assert!(d.class == StunClass::SuccessResponse && d.method == StunMethod::Binding && d.transaction_id == tx);
-    assert!(d.xor_mapped_address == Some(addr));
-    core::mem::forget(msg); core::mem::forget(d);
-}
+// (decode(encode(m)) for a Binding success response with the assert-then-literal trick finished once in 624 s
+// and ran out of memory (> 14 GB) under load: not registered. The composition is covered by
+// c16_xor_address_v4_layout_and_inverse + c16_encode_plain_length + c16_decode_xor_mapped_v4_literal.)
